@@ -99,7 +99,14 @@ def integrand_cases(ctx, name, pts, per_point_z, tol="1e-9"):
     goals, meta = [], {}
     setup = ""
     for k, (key, p, zs, apod, vals) in enumerate(pts):
+        from vlib.common import is_finite_hex
+        if not all(is_finite_hex(p[f]) for f in REAL_FIELDS if f in p) or not all(1.0 < f64_of_hex(p[f]) < 10.0 for f in ("n_p", "n_s", "n_i")):
+            ctx.count("correspondence_point_skipped_unphysical_index")
+            continue
         for zi in range(min(per_point_z, len(zs))):
+            if not (is_finite_hex(vals[zi][0]) and is_finite_hex(vals[zi][1]) and is_finite_hex(apod[zi])):
+                ctx.count("correspondence_point_skipped_nonfinite")
+                continue
             # z = +-1 first in the harness list; prefer interior points after the first
             P = f"P{k}_{zi}"
             re_, im_ = vals[zi]
